@@ -62,6 +62,8 @@ fn stress(rng: &mut Rng, thorough: bool) -> Vec<String> {
     v.push("---\ntime:\n  prep: 4294967295\n  cook: 1\n---\n".to_string());
     v.push(">> prep time: 4294967295\n>> cook time: 4294967295\n".to_string());
     v.push(">> time: 71582789h\n".to_string());
+    v.push("---\nservings: 0\n---\nAdd @water{1500%ml} and @salt{1/2%tsp}.\n".to_string());
+    v.push(">> servings: 0|2|4\n\nAdd @water{1500%ml}.\n".to_string());
     v.push("---\nservings: [4294967295, 4294967296]\ntime: 71582788h59m\n---\n".to_string());
     for _ in 0..4 { let mut s = String::new(); for _ in 0..(n / 8) { s.push_str(gen::ALPHABET[rng.below(gen::ALPHABET.len())]); } v.push(s); }
     v
